@@ -291,12 +291,17 @@ def weave_fn(src, container, name, nth, opts, subs, mode, sig_only=False):
 
     stub = (mode == 'stub') or opts.get('status') == 'A'
     spec_lines = []
+    attrs = []
     ret = None
     prefix = ''
     # collect sub-directives
     for kind, arg, lines in subs:
         body_text = '\n'.join(lines)
         if kind == 'inst':
+            continue
+        if kind == 'attr':
+            if not sig_only:
+                attrs.append(arg.strip())
             continue
         if kind == 'ret':
             ret = arg.strip()
@@ -462,9 +467,11 @@ def weave_fn(src, container, name, nth, opts, subs, mode, sig_only=False):
                     linemap.append(cur_line_src or 0)
                     cur_line_src = None
     linemap.append(cur_line_src or 0)
+    if attrs and not stub:
+        attr = attr + ins('\n'.join(attrs)) + '\n'
     out = attr + prefix + woven
     if attr:
-        linemap = [0] + linemap
+        linemap = [0] * attr.count('\n') + linemap
     rec = {
         'fn': (container + ' :: ' + name) if container not in ('-', '') else name,
         'file': os.path.relpath(src.path, src.root) if hasattr(src, 'root') else src.path,
